@@ -5,7 +5,7 @@ use crate::core::*;
 use crate::gen::*;
 use crate::json::J;
 use crate::lib_build::*;
-use crate::monitors::c01::{grad_ok, lib_grad_at, ref_param_grads, well_conditioned};
+use crate::monitors::c01::{grad_ok, lib_grad_at, well_conditioned};
 use crate::monitors::c02::{cmp_e, sh_dims};
 use crate::monitors::c11::case_json;
 use crate::refmodel::*;
@@ -232,11 +232,15 @@ fn gradient_case(rng: &mut Rng, idx: u64, out: &mut Out) {
         } else {
             *rng.pick(&cands)
         };
-        // targets distinct, no chains (a target is never a source of another connection);
-        // two connections may share their source
-        if skips.iter().all(|(x, y)| *y != b && *x != b && *y != a) {
+        // targets distinct; connections may share their source, form chains (a target that is
+        // the source of another connection) and include a connection from a layer to itself
+        if skips.iter().all(|(_, y)| *y != b) {
             skips.push((a, b));
         }
+    }
+    let chained = skips.iter().any(|(a, _)| skips.iter().any(|(a2, b2)| b2 == a && !(a2 == a && b2 == a))) || (skips.len() == 2 && skips.iter().any(|(a, b)| a == b) && skips[0].0 == skips[1].0);
+    if chained {
+        out.count("gradient_cases_with_a_chain_or_self+shared_source", 1);
     }
     if skips.len() == 2 && skips[0].0 == skips[1].0 {
         out.count("gradient_cases_with_a_shared_source", 1);
@@ -299,7 +303,32 @@ fn gradient_case(rng: &mut Rng, idx: u64, out: &mut Out) {
         }
         eprintln!("target {:?}", target);
     }
-    let refs = ref_param_grads(&cfg, &params, &x, &|y: &Val<D>| obj_loss(Obj::MSE, &y.d, &tf));
+    // chained connections: the statement leaves open whether a source that is itself a target
+    // contributes its raw or its accumulated input; the gradient must be the derivative of the
+    // function the library's own forward pass computes, so the reading is taken from there
+    let raw_reading = if chained {
+        match (predict_matches(&net, &cfg, &params, &x, false), predict_matches(&net, &cfg, &params, &x, true)) {
+            (Ok(None), _) => false,
+            (_, Ok(None)) => true,
+            _ => {
+                out.viol("skip:gradient:forward-matches-neither-reading", format!("{}: the prediction matches neither reading of the chained connections", cfg.describe()), case_json(&cfg, &params, &x));
+                return;
+            }
+        }
+    } else {
+        false
+    };
+    let refs = {
+        let xin = Val::<D>::from_f32(cfg.input, &x);
+        crate::monitors::c01::coords(&cfg, &params)
+            .into_iter()
+            .map(|co| {
+                let mut rn: RNet<D> = RNet::build(&cfg, &params, &mut |l, c, i, v| if (l, c, i) == co { D::var(v as f64) } else { D::c(v as f64) });
+                rn.raw_sources = raw_reading;
+                (co, obj_loss(Obj::MSE, &rn.forward(&xin).output().d, &tf))
+            })
+            .collect::<Vec<_>>()
+    };
     for (co, d) in refs.iter() {
         out.count("gradient_entries_compared", 1);
         let got = lib_grad_at(&net, &cfg, &wg, &bg, *co);
@@ -307,7 +336,7 @@ fn gradient_case(rng: &mut Rng, idx: u64, out: &mut Out) {
             let is_target = skips.iter().any(|(_, b)| *b == co.0);
             let between = skips.iter().any(|(a, b)| co.0 >= *a && co.0 < *b);
             let shared = skips.len() == 2 && skips[0].0 == skips[1].0;
-            let role = if is_target { "skip-target" } else if shared { "shared-source" } else if between { "between-source-and-target" } else { "other-layer" };
+            let role = if chained { "chain-or-self+shared" } else if is_target { "skip-target" } else if shared { "shared-source" } else if between { "between-source-and-target" } else { "other-layer" };
             out.viol(
                 &format!("skip:gradient:{}", role),
                 format!("{}: layer {} parameter {}: derivative of the loss of the network WITH the skip = {:e}, library gradient = {:?} (magnitude {:e})", cfg.describe(), co.0, co.2, d.d, got, d.m),
